@@ -74,6 +74,7 @@ type Knobs struct {
 	PQueueDepth                float64 // C16: probability of a finite per-action queue depth for allocate
 	PExtremePriority           float64 // workload priority class with a value near the int32 limits
 	PDanglingQueue             float64 // the cluster contains 1-2 pending pod groups whose queue does not exist
+	PEarlyRecreate             float64 // workload controllers: a terminating pod is replaced by a pending one at once
 }
 
 var allActions = "allocate, consolidation, reclaim, preempt, stalegangeviction"
@@ -132,6 +133,7 @@ func Profile(name string) Knobs {
 		k.PFaults = 0.1
 		k.KindWeights = map[string]int{"cpu": 1, "whole": 7, "fraction": 2}
 		k.NoMinRuntimeNearBoundary = true
+		k.PEarlyRecreate = 0.5
 	case "fairness": // C07
 		k.Fill, k.PTerminating = 0.85, 0.05
 		k.QueueChildrenMax = 4
@@ -268,6 +270,11 @@ func GenerateWith(k Knobs, profile string, seed int64, index int, tier string) *
 	g.c.World.PPodUpdateLags = pick(g, []float64{0, 0, 0.25})
 	if k.Closed {
 		g.c.World.PBindSucceeds, g.c.World.PBindFails, g.c.World.MaxTerminateCycles, g.c.World.PPodUpdateLags = 1, 0, 0, 0
+	}
+	if !k.Closed && k.PEarlyRecreate > 0 && g.p(k.PEarlyRecreate) {
+		g.c.World.Closed, g.c.World.EarlyRecreate = true, true
+		g.c.World.MaxTerminateCycles = g.in(1, 2)
+		g.c.Cycles += 2
 	}
 	if g.p(k.PFaults) {
 		g.c.Faults = spec.Faults{PBindRequestCreateFails: pick(g, []float64{0.1, 0.5}), PPodDeleteFails: pick(g, []float64{0, 0.1, 0.5}), PEvictCallFails: pick(g, []float64{0, 0, 0.2})}
